@@ -2,6 +2,8 @@ import CasbinV.Proto
 import CasbinV.Driver.Effect
 import CasbinV.Driver.Policy
 import CasbinV.Driver.Enforcer
+import CasbinV.Driver.Matcher
+import CasbinV.Driver.Persist
 /-! Line-protocol driver: `driver <family>`; exactly one answer line per input line.
     Lines starting with `#` are echoed; `#reset` also resets a stateful family to its initial state.
     Unknown or malformed lines answer `bad-op` (never defaulted). -/
@@ -17,7 +19,9 @@ def stateless (f : List String → String) : Family := { σ := Unit, init := (),
 def families : List (String × Family) := [
   ("effect", stateless Casbin.Driver.Effect.handle),
   ("policy", { σ := Casbin.Driver.Policy.St, init := {}, step := Casbin.Driver.Policy.step }),
-  ("enf", { σ := Casbin.Driver.Enf.DSt, init := {}, step := Casbin.Driver.Enf.step })
+  ("enf", { σ := Casbin.Driver.Enf.DSt, init := {}, step := Casbin.Driver.Enf.step }),
+  ("matcher", { σ := Casbin.Driver.Matcher.Table, init := [], step := Casbin.Driver.Matcher.step }),
+  ("persist", { σ := Casbin.Driver.Persist.DState, init := {}, step := Casbin.Driver.Persist.handle })
 ]
 
 partial def runFamily (h out : IO.FS.Stream) (fam : Family) (s : fam.σ) : IO Unit := do
